@@ -391,6 +391,8 @@ def run(tier):
         # 1. the share/detach design implements independent vectors for all histories in the bound
         mcs = [("exhaustive " + cfg["mc"], ex.submit(vlib.tlc, "MC_CowArray", cfg["mc"], 8, tag="MC_CowArray_c"))]
         if tier == "thorough":
+            mcs.append(("exhaustive MC_CowArray_t3.cfg (three handles)",
+                        ex.submit(vlib.tlc, "MC_CowArray", "MC_CowArray_t3.cfg", 8, tag="MC_CowArray_t3")))
             for a in XAPIS:
                 mcs.append(("exhaustive MC_CowArray_%s.cfg" % a,
                             ex.submit(vlib.tlc, "MC_CowArray", "MC_CowArray_%s.cfg" % a, 4, tag="MC_CowArray_" + a)))
